@@ -173,7 +173,7 @@ func main() {
 			if tier == "thorough" {
 				return 8000
 			}
-			return 320
+			return 256
 		},
 		Run: run,
 		Floors: map[string]int64{"histories": 30, "messages_judged": 10000, "chk_rule_ipset_exists": 500, "chk_endpoint_policy_exists": 200,
